@@ -26,6 +26,8 @@ func gen(stream, tier string, seed uint64) {
 		genMarshal(tier, seed)
 	case "unmarshal":
 		genUnmarshal(tier, seed)
+	case "roundtrip":
+		genRoundtrip(tier, seed)
 	case "wfault":
 		genWFault(tier, seed)
 	case "rfault":
